@@ -72,6 +72,19 @@ theorem check_semantics (s : Store) (a p : Nat) (t : Ty) :
   | none => exact ⟨false, by simp [step, h], by simp⟩
   | some v => exact ⟨subtype v.ty t, by simp [step, h], by simp⟩
 
+/-- `check<T>` predicts the typed accessors: it is true exactly when `load<T>`, `copy<T>` and
+    `borrow<&T>` on the same store return the stored value (rather than nil or an error). -/
+theorem check_predicts (s : Store) (a p : Nat) (t : Ty) :
+    (∃ s', step s (.check a p t) = .ok (s', .bool true)) ↔
+      ((∃ v s', step s (.load a p t) = .ok (s', .val v)) ∧ (∃ v, step s (.copy a p t) = .ok (s, .val v)) ∧
+       (∃ v, step s (.borrow a p t) = .ok (s, .ref v))) := by
+  cases h : getAt s (a, p) with
+  | none => simp [step, h]
+  | some v =>
+    by_cases hs : subtype v.ty t = true
+    · simp [step, h, hs]
+    · simp [step, h, hs]
+
 /-- `type(at:)` is the stored value's dynamic type, or nil. -/
 theorem type_semantics (s : Store) (a p : Nat) :
     step s (.type a p) = .ok (s, .ty ((getAt s (a, p)).map Val.ty)) := rfl
